@@ -57,21 +57,21 @@ theorem C04_gs2_unused_exact (y : Style) (st : State) (h : wf y st = true) (p : 
       exact absurd (skeleton_nodup.2 _ hk).1 hnt
     · exact h1
 
-def exState : Spec.State :=
+def C04_gs2_exState : Spec.State :=
   { name := bs "Srv", map := bs "m1", hasPassword := true, teams := [⟨bs "Red", 3⟩, ⟨bs "Blue", 65535⟩],
     playersMaximum := 16, reportedPlayers := some 0, playersMinimum := some 2, players := [],
     extras := [(bs "gamever", bs "1.2")] }
 
-def exState2 : Spec.State := { exState with players := [⟨bs "Bob", 7, 40, 1⟩], reportedPlayers := some 5 }
+def C04_gs2_exState2 : Spec.State := { C04_gs2_exState with players := [⟨bs "Bob", 7, 40, 1⟩], reportedPlayers := some 5 }
 
-def exStyle : Style := ⟨[(bs "deaths_", bs "9")], []⟩
+def C04_gs2_exStyle : Style := ⟨[(bs "deaths_", bs "9")], []⟩
 
 -- non-vacuity: a server WITHOUT players but with teams (the case the unrepaired code could not
 -- decode) and one with a player, an extra column and a larger reported count are in the domain
-example : wf exStyle exState = true ∧
-    (query 2302 0 (Net.init [.opened [.data (reply exStyle exState)]] [])).1 = .ok (expected exState)
-    ∧ (expected exState).teams.length = 2 ∧ (expected exState).playersOnline = 0
-    ∧ wf exStyle exState2 = true
-    ∧ (query 2302 0 (Net.init [.opened [.data (reply exStyle exState2)]] [])).1 = .ok (expected exState2)
-    ∧ (expected exState2).playersOnline = 5 := by
+example : wf C04_gs2_exStyle C04_gs2_exState = true ∧
+    (query 2302 0 (Net.init [.opened [.data (reply C04_gs2_exStyle C04_gs2_exState)]] [])).1 = .ok (expected C04_gs2_exState)
+    ∧ (expected C04_gs2_exState).teams.length = 2 ∧ (expected C04_gs2_exState).playersOnline = 0
+    ∧ wf C04_gs2_exStyle C04_gs2_exState2 = true
+    ∧ (query 2302 0 (Net.init [.opened [.data (reply C04_gs2_exStyle C04_gs2_exState2)]] [])).1 = .ok (expected C04_gs2_exState2)
+    ∧ (expected C04_gs2_exState2).playersOnline = 5 := by
   decide +kernel
